@@ -62,6 +62,9 @@ struct Edit {
 struct Helper<'f> {
     sig: &'f syn::Signature,
     block: &'f syn::Block,
+    /// type parameters in scope of the helper (its impl block's and its own): a parameter type that mentions one of them cannot be
+    /// written at the call site of the instantiated template, so the binding is left to type inference
+    generics: Vec<String>,
 }
 
 struct Edits<'a> {
@@ -144,7 +147,9 @@ impl<'a> Edits<'a> {
         let (body, _) = apply_edits(self.src, br.start + 1, br.end - 1, sub.ins);
         let mut t = String::from("{ ");
         for ((pat, ty), a) in params.iter().zip(args.iter()) {
-            t.push_str(&format!("let {}: {} = {}; ", pat, ty, &self.src[a.span().byte_range()]));
+            let mentions_generic = ty.split(|c: char| !(c.is_alphanumeric() || c == '_')).any(|w| h.generics.iter().any(|g| g == w) || w == "Self");
+            if mentions_generic { t.push_str(&format!("let {} = {}; ", pat, &self.src[a.span().byte_range()])); }
+            else { t.push_str(&format!("let {}: {} = {}; ", pat, ty, &self.src[a.span().byte_range()])); }
         }
         t.push_str(&format!("/* inlined {} */ {{ {} }} }}", name, body));
         self.inlined.push(name.to_string());
@@ -302,7 +307,7 @@ impl<'a, 'ast> Visit<'ast> for Edits<'a> {
 }
 
 fn norm(s: &str) -> String {
-    s.split_whitespace().collect::<Vec<_>>().join("")
+    s.split_whitespace().collect::<Vec<_>>().join("").replace("crate::", "")
 }
 
 fn type_last_ident(t: &syn::Type) -> Option<String> {
@@ -575,11 +580,11 @@ fn main() {
                 else if sel.starts_with("trait ") { None } else { sel.split(" for ").nth(1).map(|x| x.trim().to_string()) };
             for item in &parsed.items {
                 match item {
-                    syn::Item::Fn(f) => { helpers.insert(f.sig.ident.to_string(), Helper { sig: &f.sig, block: &f.block }); }
+                    syn::Item::Fn(f) => { helpers.insert(f.sig.ident.to_string(), Helper { sig: &f.sig, block: &f.block, generics: f.sig.generics.type_params().map(|t| t.ident.to_string()).collect() }); }
                     syn::Item::Impl(im) => {
                         if let (Some(st), Some(ty)) = (&self_ty, type_last_ident(&im.self_ty)) {
                             if *st == ty {
-                                for ii in &im.items { if let syn::ImplItem::Fn(f) = ii { helpers.insert(f.sig.ident.to_string(), Helper { sig: &f.sig, block: &f.block }); } }
+                                for ii in &im.items { if let syn::ImplItem::Fn(f) = ii { helpers.insert(f.sig.ident.to_string(), Helper { sig: &f.sig, block: &f.block, generics: im.generics.type_params().chain(f.sig.generics.type_params()).map(|t| t.ident.to_string()).collect() }); } }
                             }
                         }
                     }
